@@ -1685,7 +1685,7 @@ func solveAll(exs map[string]*Exec, results []*FuncResult, cfg *solveCfg) {
 			}
 		}
 	}
-	if len(again) > 0 && len(again) <= 6 && !cfg.retried {
+	if len(again) > 0 && len(again) <= 12 && !cfg.retried {
 		cfg2 := *cfg
 		cfg2.timeout = cfg.timeout * 3
 		cfg2.first = cfg.first * 3
